@@ -119,7 +119,8 @@ def direction_table(ctx, v, compute_rx, roles, rule, amount_arg=None, amount_rol
         if c.kind != "call" or c.block not in atoms:
             return None
         return bool(c.neg)
-    if atoms:
+    if atoms and all(w is not None and i is not None for w, i in atoms.values()):
+        # (only when every comparison is against a constant pool position: otherwise the table itself is reported as unreadable)
         ctx.ob(rule, "%s|no-direction-no-pricing" % v.path, cb not in region_walk(v, decide_none),
                "with the traded asset equal to none of the pools the pricing call is unreachable: %s" % (cb not in region_walk(v, decide_none)), v.where(cb))
     return table
